@@ -105,6 +105,35 @@ def step (s : S) (args : List String) (impl : String) : S × Out :=
     match k.toNat?, strArg name, addrsArg addrs with
     | some k, some n, some as => ev s (.hs k n as)
     | _, _, _ => (s, badOp)
+  | ["pq", client, qs] =>
+    -- `parseQuery` on the whole message: every question counts
+    match parseAddrPort client, questionsArg qs with
+    | some (cl, _), some qs =>
+      let r := parseQuery s.st cl qs
+      let verdict :=
+        match parseResp impl with
+        | none => "bad unparsable-reply"
+        | some ir =>
+          match Spec.Dns.respViolation s.self s.evs cl qs ir with
+          | some cls => "bad " ++ cls
+          | none => "ok"
+      let nKnown := (qs.filter (fun q => Spec.Dns.known s.self s.evs q.name)).length
+      let loc := Spec.Dns.isLocal (Spec.Dns.selfAfter s.self s.evs) cl
+      let txtAt := qs.findIdx? (fun q => q.qtype == typeTXT)
+      let lastKnown := match qs.getLast? with
+        | some q => Spec.Dns.known s.self s.evs q.name
+        | none => false
+      let tag :=
+        if qs.length < 2 then "pq:single"
+        else if !r.answers.isEmpty then
+          (if r.answers.length > 1 then "pq:answers-several" else "pq:answer-one")
+        else if txtAt.isSome && !loc then "pq:txt-remote-early-return"
+        else if r.rcode == rcodeNameError then "pq:nxdomain-all-unknown"
+        else if nKnown == qs.length then "pq:nodata-all-known"
+        else if lastKnown then "pq:nodata-mixed-known-last"
+        else "pq:nodata-mixed-unknown-last"
+      (s, { model := showResp r, verdict := verdict, tag := tag })
+    | _, _ => (s, badOp)
   | ["q", client, opcode, qs] =>
     match parseAddrPort client, opcode.toNat?, questionsArg qs with
     | some (cl, _), some opc, some qs =>
